@@ -38,11 +38,16 @@ package core
 
 // Entries are immutable; Count is a deterministic function of the entry
 // (the number of synchronizable entries in the sub-tree), abstracted by ecount.
+// The clause labelled abs is the DEFINITION of the uninterpreted function
+// ecount (the value Count returns on this entry): a declared abstraction, not
+// an obligation of the body. That this value is a uint64 (range) is proved on
+// the body; with the definition callers obtain 0 <= ecount(e) < 2^64.
 //@ immutable Entry Change Snapshot
 //@ ufunc ecount(e *Entry) int
 //@ func (*Entry).Count
 //@   deterministic
-//@   ensures result == ecount(e) && ecount(e) >= 0
+//@   ensures[abs] result == ecount(e)
+//@   ensures[range] 0 <= result && result <= 18446744073709551615
 
 // Equality of entries is a deterministic function of the two (immutable)
 // entries, abstracted by eequal; an entry equals itself.
